@@ -684,4 +684,228 @@ theorem lexAll_sat {cfg : Cfg} (ok : CfgOK cfg) (buf : Bytes) (modeAt : Nat → 
     (lexAll cfg buf modeAt).sat (fun toks => Tiles buf.length 0 toks) :=
   lexAllLoop_sat ok buf modeAt _ 0 initSt (Nat.zero_le _) (by simp [initSt])
 
+/-! ### Which bytes are skipped in front of a token -/
+
+/-- every byte of `buf[a, b)` exists and its value satisfies `P` -/
+def Among (P : Nat → Prop) (buf : Bytes) (a b : Nat) : Prop :=
+  ∀ i, a ≤ i → i < b → ∃ x : UInt8, buf[i]? = some x ∧ P x.toNat
+
+theorem Among.empty {P : Nat → Prop} {buf : Bytes} {a b : Nat} (h : b ≤ a) : Among P buf a b :=
+  fun i h1 h2 => by omega
+
+theorem Among.append {P : Nat → Prop} {buf : Bytes} {a b c : Nat} (h1 : Among P buf a b) (h2 : Among P buf b c) :
+    Among P buf a c := by
+  intro i hi1 hi2
+  rcases Nat.lt_or_ge i b with h | h
+  · exact h1 i hi1 h
+  · exact h2 i h hi2
+
+theorem Among.mono {P Q : Nat → Prop} {buf : Bytes} {a b : Nat} (h : Among P buf a b) (hpq : ∀ n, P n → Q n) :
+    Among Q buf a b := by
+  intro i h1 h2
+  obtain ⟨x, hx, hp⟩ := h i h1 h2
+  exact ⟨x, hx, hpq _ hp⟩
+
+theorem Among.single {P : Nat → Prop} {buf : Bytes} {a : Nat} {x : UInt8} (hx : buf[a]? = some x) (hp : P x.toNat) :
+    Among P buf a (a + 1) := by
+  intro i h1 h2
+  have : i = a := by omega
+  subst this
+  exact ⟨x, hx, hp⟩
+
+def IsNL (n : Nat) : Prop := n = 10 ∨ n = 13
+/-- blanks, `$`, CR, LF: the only bytes that may be skipped between tokens -/
+def IsTriviaByte (n : Nat) : Prop := n = 32 ∨ n = 9 ∨ n = 11 ∨ n = 12 ∨ n = 36 ∨ n = 10 ∨ n = 13
+
+theorem u8_eq_of_toNat {b : UInt8} {n : UInt8} (h : b.toNat = n.toNat) : b = n := UInt8.toNat_inj.1 h
+
+/-- which bytes one `getNextChar` consumes: a single byte, or a run of CR/LF when it starts at one -/
+def GetBytes (buf : Bytes) (s : St) (r : Int × St) : Prop :=
+  ∀ b : UInt8, buf[s.pos]? = some b →
+    ((b.toNat ≠ 10 ∧ b.toNat ≠ 13) → r.2.pos = s.pos + 1) ∧
+    ((b.toNat = 10 ∨ b.toNat = 13) → Among IsNL buf s.pos r.2.pos)
+
+theorem get_bytes (cfg : Cfg) (buf : Bytes) (s : St) (hv : s.pos ≤ buf.length) :
+    (getNextChar cfg buf s).sat (GetBytes buf s) := by
+  unfold getNextChar
+  split
+  · rename_i h
+    intro b hb
+    have := (List.getElem?_eq_some_iff.1 hb).1
+    omega
+  · rename_i h
+    have hlt : s.pos < buf.length := by omega
+    rw [rd_of_lt hlt]
+    simp only [Res.ok_bind]
+    have hb0 : buf[s.pos]? = some buf[s.pos] := List.getElem?_eq_getElem hlt
+    split
+    · rename_i hnl
+      have hnl' : buf[s.pos].toNat = 10 ∨ buf[s.pos].toNat = 13 := by
+        rcases hnl with h | h <;> rw [h] <;> simp
+      have first : Among IsNL buf s.pos (s.pos + 1) := Among.single hb0 hnl'
+      split
+      · rename_i h1
+        simp only [Res.pure_eq_ok, Res.ok_bind, Res.sat_ok]
+        intro b hb
+        rw [hb0] at hb; cases hb
+        exact ⟨fun hn => by omega, fun _ => first⟩
+      · rename_i h1
+        have hlt1 : s.pos + 1 < buf.length := by omega
+        rw [rd_of_lt hlt1]
+        simp only [Res.pure_eq_ok, Res.ok_bind, Res.sat_ok]
+        intro b hb
+        rw [hb0] at hb; cases hb
+        refine ⟨fun hn => by omega, fun _ => ?_⟩
+        split
+        · rename_i h2
+          have hb1 : buf[s.pos + 1]? = some buf[s.pos + 1] := List.getElem?_eq_getElem hlt1
+          have : IsNL buf[s.pos + 1].toNat := by unfold IsNL; omega
+          exact first.append (Among.single hb1 this)
+        · exact first
+    · rename_i hnl
+      simp only [Res.pure_eq_ok, Res.sat_ok]
+      intro b hb
+      rw [hb0] at hb; cases hb
+      refine ⟨fun _ => rfl, fun hn => ?_⟩
+      exfalso
+      apply hnl
+      rcases hn with h | h
+      · exact Or.inl (u8_eq_of_toNat (n := 10) (by simpa using h))
+      · exact Or.inr (u8_eq_of_toNat (n := 13) (by simpa using h))
+
+theorem isNewlineEscape_nl {cfg : Cfg} (g1 : cfg.guardLF = .distGt 1) (g2 : cfg.guardCRLF = .distGt 2)
+    (buf : Bytes) (s : St) :
+    (isNewlineEscape cfg buf s).sat (fun e => e = true → ∃ x : UInt8, buf[s.pos + 1]? = some x ∧ IsNL x.toNat) := by
+  unfold isNewlineEscape
+  have e1 : guardHolds (.distGt 1) buf.length s.pos = decide (buf.length - s.pos > 1) := rfl
+  have e2 : guardHolds (.distGt 2) buf.length s.pos = decide (buf.length - s.pos > 2) := rfl
+  rw [g1, g2, e1, e2]
+  have ha : (if decide (buf.length - s.pos > 1) = true then do
+      let b ← rd buf (s.pos + 1)
+      pure (b == 10)
+    else (pure false : Res Bool)).sat (fun a => a = true → ∃ x : UInt8, buf[s.pos + 1]? = some x ∧ IsNL x.toNat) := by
+    split
+    · rename_i h
+      have hlt : s.pos + 1 < buf.length := by simp at h; omega
+      rw [rd_of_lt hlt]
+      simp only [Res.ok_bind, Res.pure_eq_ok, Res.sat_ok]
+      intro hb
+      have : buf[s.pos + 1] = 10 := by simpa using hb
+      exact ⟨buf[s.pos + 1], List.getElem?_eq_getElem hlt, Or.inl (by rw [this]; rfl)⟩
+    · simp
+  apply sat_bind ha
+  intro a hpa
+  split
+  · rename_i hat
+    simp only [Res.pure_eq_ok, Res.sat_ok]
+    intro _; exact hpa hat
+  · by_cases h : decide (buf.length - s.pos > 2) = true
+    · rw [if_pos h]
+      have h' : buf.length - s.pos > 2 := by simpa using h
+      have h1 : s.pos + 1 < buf.length := by omega
+      have h2 : s.pos + 2 < buf.length := by omega
+      rw [rd_of_lt h1]
+      simp only [Res.ok_bind]
+      split
+      · rename_i h13
+        rw [rd_of_lt h2]
+        simp only [Res.ok_bind, Res.pure_eq_ok, Res.sat_ok]
+        intro _
+        exact ⟨buf[s.pos + 1], List.getElem?_eq_getElem h1, Or.inr (by rw [h13]; rfl)⟩
+      · simp
+    · rw [if_neg h]; simp
+
+theorem nns_trivia {c : Int} {b : UInt8} (h : isNonNewlineSpace c = true) (hc : c = (b.toNat : Int)) :
+    IsTriviaByte b.toNat ∧ b.toNat ≠ 10 ∧ b.toNat ≠ 13 := by
+  simp only [isNonNewlineSpace, isspaceC, Bool.and_eq_true, decide_eq_true_eq] at h
+  unfold IsTriviaByte
+  omega
+
+theorem triviaLoop_bytes {cfg : Cfg} (hp : cfg.peekSignExt = false) (g1 : cfg.guardLF = .distGt 1)
+    (g2 : cfg.guardCRLF = .distGt 2) (buf : Bytes) :
+    ∀ fuel c s, s.pos ≤ buf.length → PeekIs buf s c → buf.length - s.pos < fuel →
+      (triviaLoop cfg buf fuel c s).sat (fun r => Among IsTriviaByte buf s.pos r.2.pos) := by
+  intro fuel
+  induction fuel with
+  | zero => intro c s _ _ h; omega
+  | succ n ih =>
+    intro c s hv hc hf
+    unfold triviaLoop
+    split
+    · rename_i hd
+      apply sat_bind (isNewlineEscape_nl g1 g2 buf s)
+      intro esc hesc
+      split
+      · rename_i hes
+        obtain ⟨x, hx, hxnl⟩ := hesc hes
+        have hlt := hc.lt_of_ne (by omega)
+        obtain ⟨b, hb, hcb⟩ : ∃ b : UInt8, buf[s.pos]? = some b ∧ c = (b.toNat : Int) := by
+          rcases hc with ⟨h1, _⟩ | h
+          · omega
+          · exact h
+        have hb36 : b.toNat = 36 := by omega
+        apply sat_bind (sat_and (get_sat cfg buf s hv) (get_bytes cfg buf s hv))
+        intro r1 hr1
+        obtain ⟨⟨h1, h2, h3, _⟩, hbytes1⟩ := hr1
+        have hpos1 : r1.2.pos = s.pos + 1 := (hbytes1 b hb).1 (by omega)
+        apply sat_bind (sat_and (get_sat cfg buf r1.2 h2) (get_bytes cfg buf r1.2 h2))
+        intro r2 hr2
+        obtain ⟨⟨k1, k2, _, _⟩, hbytes2⟩ := hr2
+        have hnlrun : Among IsNL buf (s.pos + 1) r2.2.pos := by
+          have := (hbytes2 x (by rw [hpos1]; exact hx)).2 hxnl
+          rw [hpos1] at this; exact this
+        apply sat_bind (peek_sat hp buf r2.2 k2)
+        intro c' hc'
+        apply sat_mono (ih c' r2.2 k2 hc' (by omega))
+        intro r hr
+        have a1 : Among IsTriviaByte buf s.pos (s.pos + 1) :=
+          Among.single hb (by unfold IsTriviaByte; omega)
+        have a2 : Among IsTriviaByte buf (s.pos + 1) r2.2.pos :=
+          hnlrun.mono (fun n hn => by unfold IsNL at hn; unfold IsTriviaByte; omega)
+        exact (a1.append a2).append hr
+      · exact Among.empty (Nat.le_refl _)
+    · split
+      · rename_i hi
+        have hne : c ≠ -1 := by
+          intro h; rw [h, isNonNewlineSpace_eof] at hi; exact absurd hi (by simp)
+        have hlt := hc.lt_of_ne hne
+        obtain ⟨b, hb, hcb⟩ : ∃ b : UInt8, buf[s.pos]? = some b ∧ c = (b.toNat : Int) := by
+          rcases hc with ⟨h1, _⟩ | h
+          · omega
+          · exact h
+        obtain ⟨ht, hn10, hn13⟩ := nns_trivia hi hcb
+        apply sat_bind (sat_and (get_sat cfg buf s hv) (get_bytes cfg buf s hv))
+        intro r1 hr1
+        obtain ⟨⟨h1, h2, h3, _⟩, hbytes1⟩ := hr1
+        have hpos1 : r1.2.pos = s.pos + 1 := (hbytes1 b hb).1 ⟨hn10, hn13⟩
+        apply sat_bind (peek_sat hp buf r1.2 h2)
+        intro c' hc'
+        apply sat_mono (ih c' r1.2 h2 hc' (by omega))
+        intro r hr
+        rw [hpos1] at hr
+        exact (Among.single hb ht).append hr
+      · exact Among.empty (Nat.le_refl _)
+
+theorem lex_trivia {cfg : Cfg} (ok : CfgOK cfg) (buf : Bytes) (m : LexMode) (s : St) (hv : s.pos ≤ buf.length) :
+    (lex cfg buf m s).sat (fun r => Among IsTriviaByte buf s.pos r.1.start) := by
+  unfold lex
+  apply sat_bind (peek_sat ok.peek buf s hv)
+  intro c hc
+  split
+  · rename_i hi
+    have hne : c ≠ -1 := by
+      intro h; rw [h, isNonNewlineSpace_eof] at hi; exact absurd hi.1 (by simp)
+    apply sat_bind (get_sat cfg buf s hv)
+    intro r hr
+    apply sat_bind (spaceLoop_sat ok.peek buf _ r.2 hr.2.1 (by omega))
+    intro s2 _
+    exact Among.empty (Nat.le_refl _)
+  · apply sat_bind (sat_and (triviaLoop_sat ok.peek ok.gLF ok.gCRLF buf _ c s hv hc (by omega))
+      (triviaLoop_bytes ok.peek ok.gLF ok.gCRLF buf _ c s hv hc (by omega)))
+    intro r hr
+    obtain ⟨⟨h1, h2, hpk, hns⟩, hb⟩ := hr
+    apply sat_mono (lexToken_sat ok buf m r.1 r.2 h2 hpk hns)
+    intro t ht
+    rw [ht.1]; exact hb
+
 end LLBuild.NinjaLexer
